@@ -4,6 +4,7 @@
 -/
 import TealerModel.Props.Common
 import TealerModel.Props.Tie
+import TealerModel.Props.TieMatchers
 import TealerModel.Lemmas.FeeLeaf
 namespace Tealer.C09
 
@@ -126,5 +127,13 @@ theorem C09_leaf_premise_direct (prog : List Ins) (e : Avm.Env) (blockIns : List
         (EvalRun.truthy (valOf (p, 0)) = true → Fee.gamma (feeSingle ic (constructAst blockIns) ⟨"Fee", .self⟩ p).1 fee) ∧
         (EvalRun.truthy (valOf (p, 0)) = false → Fee.gamma (feeSingle ic (constructAst blockIns) ⟨"Fee", .self⟩ p).2 fee)) :=
   FeeLeaf.fee_leaf_premise prog e blockIns pc0 st k hrun valOf hout hargs ic p p1 p2 c n hp hp1 hp2 hopp hop1 hop2 hargsp
+
+/-- THE MATCHER IS THE PYTHON'S.  `_get_asserted_fee` — operand classification, the `field_is_second_operand` test and the
+    mirrored comparison (`_MIRRORED_COMPARISON` read from the module) — translated statement by statement from /repo's
+    Python on this run, computes exactly the model's `feeSingle` on the stack value the Python holds -/
+theorem C09_tie_matcher (intcs : Option (List Nat)) (ins : List Ins) (key : Key) (n p o : Nat) :
+    TieM.toG2 (feeSingle intcs (constructAst ins) key p) =
+      Generated.getAssertedFee (TieM.envOf intcs) (TieM.envOf intcs) key (treeOf (constructAst ins) (n + 3) (some (p, o))) :=
+  TieM.fee_tie intcs _ (TieM.arity_constructAst ins) key n p o
 
 end Tealer.C09
